@@ -32,6 +32,8 @@ ASSUMPTIONS = [
     "call_Fq on P alone (<F>, <F^2>, R_eff, V_shell, V_form/V_shell; decided by C01) and call_kernel on S alone are the reference",
     "scale, background = 1.7, 0.25 throughout; q on 4 fixed points (1-D) / 4 fixed points (2-D)",
     "for mode 0 with a dispersed S.radius_effective the reported radius may be the nominal value or the distribution mean",
+    "rounding budget: 1e-11*sum|terms| plus 4x the largest change of S when R_eff or volfraction*ratio move by 1, 3, 8, 16 ulp; "
+    "hayter_msa amplifies input rounding ~1e5 times",
     "DLL and pure-Python drivers only (no OpenCL/CUDA in the image)",
 ]
 S_MODELS = ["hardsphere", "hayter_msa", "squarewell", "stickyhardsphere"]
@@ -292,16 +294,32 @@ def run_case(case, ctx):
     if mode == 0:
         s_call.update(s_pd)
     Sq = np.array(call_kernel(k_s, s_call), float)
+    # conditioning of S: R_eff and volfraction*ratio are weighted means whose last bits depend on the mesh
+    # (e.g. ProductKernel has no `dim`, so call_kernel keeps orientation jitter active for 1-D P@S and the same
+    # mean is accumulated over a larger mesh); hayter_msa amplifies one ulp of its inputs ~1e5 times.  The
+    # propagated input rounding (largest response to 1..16 ulp input moves, x4) is part of the rounding budget.
+    dS = np.zeros_like(Sq)
+    ulp = 2.0 ** -52
+    for m in (1, 3, 8, 16):
+        for sr, sv in ((1, 0), (-1, 0), (0, 1), (0, -1)):
+            pert = dict(s_call, radius_effective=reff_used * (1 + sr * m * ulp),
+                        volfraction=vf * vratio * (1 + sv * m * ulp))
+            with np.errstate(all="ignore"):
+                d = np.abs(np.array(call_kernel(k_s, pert), float) - Sq)
+            dS = np.maximum(dS, np.where(np.isfinite(d), d, 0.0))
+    dS = 4.0 * dS
     pref = SCALE / vshell * (1.0 if p_has_vf else vf)
     if beta:
         if F1 is None:
             raise HarnessError("beta requested but P alone returns no <F>")
         ref = pref * (F2 + F1 ** 2 * (Sq - 1.0)) + BACKGROUND
         magn = abs(pref) * (np.abs(F2) + F1 ** 2 * (np.abs(Sq) + 1.0)) + abs(BACKGROUND)
+        s_slack = abs(pref) * F1 ** 2 * dS
         br.append("beta")
     else:
         ref = pref * F2 * Sq + BACKGROUND
         magn = abs(pref) * np.abs(F2 * Sq) + abs(BACKGROUND)
+        s_slack = abs(pref) * np.abs(F2) * dS
     br.append("mode-%s" % ("none" if not have_er else "0" if mode == 0 else "P"))
     if p_has_vf:
         br.append("volfraction-in-P")
@@ -320,8 +338,12 @@ def run_case(case, ctx):
                  % (pname, mode, F2, F1, float(reff_p), float(vshell), float(vratio), sname,
                     {k: (float(v) if isinstance(v, (float, np.floating)) else v) for k, v in s_call.items()
                      if k not in ("scale", "background")}, Sq))
-    ok, err = refmodel.close(impl, ref, magn, rtol=1e-11)
-    if not ok:
+    with np.errstate(all="ignore"):
+        bad_i = ~(np.abs(impl - ref) <= 1e-11 * np.maximum(magn, np.abs(ref)) + s_slack)
+    bad_i &= ~(np.isnan(impl) & np.isnan(ref)) & ~(impl == ref)
+    if np.any(s_slack > 1e-11 * magn):
+        br.append("ill-conditioned-S")
+    if bad_i.any():
         return r.fail("%s\n  impl=%s\n  ref =%s%s" % (desc, impl, ref, info_line),
                       dict(fk, clause="intensity", mode=mode, beta=beta), branches=br, nt=nt, trans=3)
 
@@ -340,7 +362,7 @@ def run_case(case, ctx):
         SQ = np.array(results["S(Q)"][1], float)
         if not refmodel.close(PQ, pref * F2, rtol=1e-11)[0]:
             bad("P(Q)", "P(Q)", PQ, pref * F2)
-        if not refmodel.close(SQ, Sq, rtol=1e-11)[0]:
+        if not np.all((np.abs(SQ - Sq) <= 1e-11 * np.abs(Sq) + dS) | (np.isnan(SQ) & np.isnan(Sq)) | (SQ == Sq)):
             bad("S(Q)", "S(Q)", SQ, Sq)
         if not refmodel.close(results["volume"], vshell, rtol=1e-12)[0]:
             bad("volume", "volume", results["volume"], vshell)
@@ -360,12 +382,15 @@ def run_case(case, ctx):
             if not refmodel.close(results["beta(Q)"][1], b_ref, rtol=1e-11)[0]:
                 bad("beta(Q)", "beta(Q)", results["beta(Q)"][1], b_ref)
             seff = 1.0 + b_ref * (Sq - 1.0)
-            if not refmodel.close(results["S_eff(Q)"][1], seff, np.abs(b_ref) * (np.abs(Sq) + 1) + 1, rtol=1e-11)[0]:
+            se = np.array(results["S_eff(Q)"][1], float)
+            with np.errstate(all="ignore"):
+                se_ok = np.abs(se - seff) <= 1e-11 * (np.abs(b_ref) * (np.abs(Sq) + 1) + 1) + np.abs(b_ref) * dS
+            if not np.all(se_ok | (np.isnan(se) & np.isnan(seff)) | (se == seff)):
                 bad("S_eff(Q)", "S_eff(Q)", results["S_eff(Q)"][1], seff)
         # the reported pieces must reproduce the returned intensity
         with np.errstate(all="ignore"):
             recon = PQ * (np.array(results["S_eff(Q)"][1], float) if beta else SQ) + BACKGROUND
-        if not refmodel.close(recon, impl, magn, rtol=1e-11)[0]:
+        if not refmodel.close(recon, impl, magn, rtol=1e-11)[0]:     # same inputs on both sides: no S slack
             bad("recombine", "P(Q)*S(Q)+background", recon, impl)
     if len(r.fails) > nfail0:
         r.evals += 1
